@@ -159,8 +159,9 @@ def rule_write_target(ctx, rep):
 def rule_enum_siblings(ctx, rep):
     rep.rule(
         "R-ENUM-SIBLINGS",
-        "both enumerators of project files (code_directory.files_for_directory and BaseParser.find_file_locations) exclude symlinks",
-        min_instances=2,
+        "both enumerators of project files (code_directory.files_for_directory and BaseParser.find_file_locations) exclude symlinks, and "
+        "neither walks into symlinked directories",
+        min_instances=3,
     )
     for q in ("codemodder.code_directory.files_for_directory", "codemodder.project_analysis.file_parsers.base_parser.BaseParser.find_file_locations"):
         fn = ctx.prog.func(q)
@@ -169,7 +170,27 @@ def rule_enum_siblings(ctx, rep):
         es = ElemSources(ctx, fn)
         rets = [n.value for n in walk_no_nested(fn.node) if isinstance(n, ast.Return) and n.value is not None]
         leaves = [x for rv in rets for x in es.sources(rv)]
-        enum_leaves = [(leaf, f) for leaf, f in leaves if isinstance(leaf, ast.Call) and last_attr(leaf.func) in ("rglob", "glob", "iterdir", "walk", "scandir", "listdir")]
+        ENUMS = ("rglob", "glob", "iglob", "iterdir", "walk", "scandir", "listdir")
+        enum_leaves = [(leaf, f) for leaf, f in leaves if isinstance(leaf, ast.Call) and last_attr(leaf.func) in ENUMS]
+        # the walk itself must not descend into symlinked directories: a file *below* a directory symlink is not a symlink, so the
+        # per-element filter cannot catch it.  pathlib's rglob/glob and os.walk do not follow them unless asked to; glob.glob/iglob do.
+        r_ = ctx.resolver(fn)
+        follows = []
+        for leaf in [x for x in ast.walk(fn.node) if isinstance(x, ast.Call) and last_attr(x.func) in ENUMS]:
+            cq = r_.callee_qname(leaf) or ""
+            kws = {k.arg: k.value for k in leaf.keywords}
+            truthy = lambda v: not (isinstance(v, ast.Constant) and not v.value)  # noqa: E731
+            if cq in ("glob.glob", "glob.iglob") and "recursive" in kws and truthy(kws["recursive"]):
+                follows.append((leaf, "glob's recursive `**` descends into symlinked directories"))
+            elif last_attr(leaf.func) == "walk" and any(k in kws and truthy(kws[k]) for k in ("followlinks", "follow_symlinks")):
+                follows.append((leaf, "the walk is asked to follow directory symlinks"))
+            elif last_attr(leaf.func) in ("rglob", "glob") and "recurse_symlinks" in kws and truthy(kws["recurse_symlinks"]):
+                follows.append((leaf, "the glob is asked to recurse into symlinked directories"))
+        rep.check("R-ENUM-SIBLINGS", q, fn.loc(follows[0][0]) if follows else fn.loc(), not follows, "no-symlinked-directories",
+                  (f"`{unparse(follows[0][0])[:60]}`: {follows[0][1]}; files below a directory symlink that points outside the target are then "
+                   "analysed / chosen as the manifest to write") if follows else "")
+        if follows:
+            continue
         if not enum_leaves:
             raise AnalysisError(f"{q}: no file-system enumeration found among the returned elements")
         # the kept elements must *all* be non-symlinks: a negative is_symlink fact on every element that is returned
